@@ -45,7 +45,7 @@ func genPipeline(t *rapid.T) Pipeline {
 		case "Filter", "While":
 			s.Mask = rapid.IntRange(0, 255).Draw(t, "mask") | rapid.SampledFrom([]int{0, 0, 255}).Draw(t, "bias")
 		case "First":
-			s.N = genParam(t, "first", len(p.Input), 0)
+			s.N = genParam(t, "first", len(p.Input), -3)
 		case "ChunkFlatten":
 			s.N = genParam(t, "chunk", len(p.Input), 1)
 		case "Join":
